@@ -54,7 +54,7 @@ PROPS = {
 T = 3600  # generous timeouts: the machine is shared (AGENT_BRIEF load notice)
 
 
-def _cov(ctx, res):
+def _cov(ctx, res, allow=()):
     """-coverage 1 prints interim reports too: only the last figure of every action counts."""
     import re
     last = {}
@@ -62,7 +62,7 @@ def _cov(ctx, res):
         last[m.group(1)] = (int(m.group(2)), int(m.group(3)))
     if not last:
         raise vlib.Broken('no coverage figures in the TLC output')
-    zero = sorted(a for a, (d, g) in last.items() if g == 0)
+    zero = sorted(a for a, (d, g) in last.items() if g == 0 and a not in allow)
     if zero:
         raise vlib.Broken('vacuous model-checking run, actions never taken: %s' % zero)
     ctx.extra['mc_action_coverage'] = {a: '%d:%d' % v for a, v in sorted(last.items())}
@@ -109,7 +109,7 @@ def run_c07(ctx):
     ctx.assumptions += ['content does not change during a pagination', 'TLC bounds: see level_note']
     r = ctx.tlc_mc('Listing_MC', 'Listing_MCq.cfg', workers=4, timeout=3 * T, coverage=not q)
     if not q:
-        _cov(ctx, r)
+        _cov(ctx, r, allow=('Put',))  # the exhaustive configs enumerate contents in Init (MaxPuts = 0)
         ctx.tlc_mc('Listing_MC', 'Listing_MC.cfg', workers=4, timeout=6 * T)
         ctx.tlc_mc('Listing_MC', 'Listing_MC3.cfg', workers=4, timeout=6 * T)
     b = vlib.build(DRIVER)
